@@ -28,13 +28,17 @@ RULE = ('2-3 concurrent trash-put processes of one user, each trashing 1-3 entri
         '(files, directories, symlinks, dangling links) into the same trash directory, which is absent (all create it), present, or pre-filled '
         'with foo, foo_1 ... foo_k pairs, orphan payloads (file, directory, dangling symlink) and stray infos; a crowded variant pre-fills 100 '
         'names and scripts the random suffix so that processes collide; schedulers: uniform choice at every op, PCT priorities with <= 3 change '
-        'points, and sweeps (A until its k-th op on the shared trash dir, then the others, then A); a sequential variant trashes the same name '
+        'points, sweeps (A until its k-th op on the shared trash dir, then the others, then A) and, in 30 % of the concurrent cases, one injected '
+        'file-system error (rename/open/write/close/mkdir: EIO, EACCES, ENOSPC, EPERM) in one process, mostly with a sweep that switches to the '
+        'other processes j = 0..4 shared ops into that process\'s recovery path (sweepfault); a sequential variant trashes the same name '
         '> 100 times; evaluations = schedules; distinct = distinct interleavings of the ops on the shared trash directory (hash of the '
         '(pid, op, path) sequence) with at least one context switch between a reservation (exclusive create) and its rename')
 ASSUMPTIONS = ['processes are single-threaded; every system call is atomic; only the order of calls of different processes varies',
-               'in a fault-free run where all processes trash distinct existing entries no process may fail (attributed to C04 by its quantifier)']
+               'in a fault-free run where all processes trash distinct existing entries no process may fail (attributed to C04 by its quantifier); '
+               'a process that met an injected error may fail, the others may not, and the pair invariant holds for all']
 PROBES = ['schedules', 'context-switches', 'switch-between-reserve-and-rename', 'both-created-trash-dir', 'eexist-retry', 'crowded-random-suffix',
-          'sequential-histories', 'over-100-same-name', 'orphan-dangling-symlink', 'orphan-dir', 'stray-info', 'uniform', 'pct', 'sweep', 'three-procs']
+          'sequential-histories', 'over-100-same-name', 'orphan-dangling-symlink', 'orphan-dir', 'stray-info', 'uniform', 'pct', 'sweep', 'sweepfault', 'three-procs',
+          'fault-in-one-process', 'fault-fired', 'faulted-process-reported-failure']
 TECHNIQUE = 'deterministic simulation of concurrent processes: baton-passing threads under a seeded scheduler (uniform / PCT / sweep), invariant on pairs after all exit'
 LEVEL_TEXT = ('seeded search over interleavings of the real trash-put processes\' file-system operations; each schedule is one repeatable '
               'execution (the recorded choice list replays it); not exhaustive')
@@ -115,6 +119,18 @@ def gen(rng):
     case['procs'] = procs
     case['sched'] = {'strategy': rng.choice(['uniform', 'uniform', 'pct', 'sweep']), 'seed': rng.randrange(1 << 30),
                      'depth': rng.randint(1, 3), 'sweep': {'pid': rng.randint(1, nprocs), 'k': rng.randrange(0, 14)}}
+    if mode == 'conc' and rng.random() < 0.3:
+        # one process meets a file-system error in the middle of its put: its recovery path then
+        # runs interleaved with the other processes' puts (sweepfault: switch right inside it)
+        import errno as E
+        fp = rng.randint(1, nprocs)
+        op = rng.choice(['rename', 'rename', 'rename', 'open_w', 'write', 'close', 'mkdir'])
+        case['faults'] = [{'kind': 'shot', 'pid': fp, 'op': op, 'k': rng.choice([0, 0, 0, 1, 2]),
+                           'errno': rng.choice({'rename': [E.EIO, E.EACCES, E.ENOSPC, E.EPERM], 'open_w': [E.EIO, E.EACCES, E.ENOSPC],
+                                                'write': [E.EIO, E.ENOSPC], 'close': [E.EIO], 'mkdir': [E.EACCES, E.EIO]}[op])}]
+        if rng.random() < 0.6:
+            case['sched']['strategy'] = 'sweepfault'
+            case['sched']['sweep'] = {'pid': fp, 'j': rng.randrange(0, 5)}
     if mode == 'crowded':
         case['randscript'] = [rng.choice([1, 2, 3]) for _ in range(6)] + [rng.randrange(200, 60000) for _ in range(40)]
     case['note'] = {'state': state, 'names': names}
@@ -185,6 +201,14 @@ def check(sim, case, st):
     ht_dirs = sorted(set(posixpath.dirname(posixpath.dirname(p)) for p in skel if p.endswith('/files')))
     shared = tuple(d for d in ht_dirs)
     results, sch = SS.run_concurrent(sim, procs, chooser, shared_prefixes=shared)
+    # pids of this run are pid0+1 ...; fault rules name them 1-based
+    faulted = set(f.get('pid') for f in case.get('faults', []) if K.fired)
+    if case.get('faults'):
+        st.probes['fault-in-one-process'] += 1
+        if K.fired:
+            st.probes['fault-fired'] += 1
+            if any(r.exit != 0 for r in results if r.pid in faulted):
+                st.probes['faulted-process-reported-failure'] += 1
     st.sims += len(procs)
     st.ops += sum(r.nops for r in results)
     st.probes['schedules'] += 1
@@ -203,7 +227,7 @@ def check(sim, case, st):
     for r in results:
         if r.exc is not None:
             res.append(('C04/conc/traceback:%s/%s' % (r.exc_frame, sigctx), 'process %d raised %s %s' % (r.pid, r.exc, detail_ctx)))
-        elif r.exit != 0:
+        elif r.exit != 0 and r.pid not in faulted:
             res.append(('C04/conc/process-failed/%s' % sigctx, 'process %d (argv %r) failed although all entries exist and are distinct %s' % (r.pid, r.argv, detail_ctx)))
     # distinct pairs per successful argument is implied by judge (each payload is used once)
     trashed = [o for o in outs if o.state == 'trashed']
@@ -226,8 +250,11 @@ def check(sim, case, st):
         st.probes['switch-between-reserve-and-rename'] += 1
         h = hashlib.sha256(repr(inter).encode('utf-8', 'backslashreplace')).hexdigest()[:16]
         st.distinct.add(h)
-    mk = [pid for pid, op, path in inter if op == 'mkdir']
-    if len(set(mk)) > 1:
+    mk = {}
+    for pid, op, path in inter:
+        if op == 'mkdir':
+            mk.setdefault(path, set()).add(pid)
+    if any(len(v) > 1 and p is not None and p not in before for p, v in mk.items()):
         st.probes['both-created-trash-dir'] += 1
     if any(ev[2] == 'open_w' and ev[6] == 'E:EEXIST' for r in results for ev in r.trace):
         st.probes['eexist-retry'] += 1
@@ -241,8 +268,11 @@ def check(sim, case, st):
             N = k.split('/files/')[1]
             if (T + '/info/' + N + '.trashinfo') not in before:
                 st.probes['orphan-dangling-symlink' if v[0] == 'l' else ('orphan-dir' if v[0] == 'd' else 'orphan-file')] += 1
-    if note.get('state') == 'orphans':
-        st.probes['stray-info'] += 0
+    for k in before:
+        if '/info/' in k and k.endswith('.trashinfo'):
+            T, N = k.split('/info/', 1)
+            if '/' not in N and (T + '/files/' + N[:-len('.trashinfo')]) not in before:
+                st.probes['stray-info'] += 1
     # remember the schedule for the replay file
     case.setdefault('sched', {})['recorded'] = list(chooser.recorded)
     return _dedup(res)
